@@ -1,6 +1,12 @@
 """C17 — specification helpers equal their documented closed forms.
 
-Tie: correspondence (C).  The real helper expressions (`piecewise_*`, `boxcox`,
+Round 3: the helpers BUILD formulas.  Every formula built in a run is kept with the real signature text handed to the engine
+(lib/leanrun.observe) and (i) read by the driver into a tree (model of the engine's reader, Sig.parseLine) that must be, node by
+node, the tree Model/HelpersBuild.lean builds for the same abstract case, (ii) evaluated there with the engine's node semantics,
+(iii) run by the proved engine model (Driver/Formula.lean), (iv) compared with the real engine, the closed-form model and the oracles.
+`translate` regenerates lean/Generated/Helpers.lean (live helper outputs for a family of shapes = model-built trees, kernel-checked).
+
+Tie: correspondence (C) + translator.  The real helper expressions (`piecewise_*`, `boxcox`,
 `distributions.*`, `loglikelihoodregression`, `Segmentation.segmented_beta/segmented_code`,
 `NestsForNestedLogit.correlation`) are built through the public API from generated abstract cases,
 evaluated by the engine on generated arguments and compared (i) with the Lean model of
@@ -16,29 +22,46 @@ import math
 
 import numpy as np
 
-from lib import core
+from lib import core, leanrun
 from lib.core import Result, f2b, b2f
 
 READY = True
 MANIFEST = dict(
-    text='Proof (Lean 4 + Mathlib, over the reals, same definitions the driver runs on Float): piecewise variables sum to the clipped '
+    text='Proof (Lean 4 + Mathlib, over the reals, same definitions the driver runs on Float). (1) Closed forms: piecewise variables sum to the clipped '
     'distance from the first threshold for every sorted threshold list with closed or open ends (C17.pw_sum_clip*), piecewise formula = '
     'piecewise_function for every argument, threshold list (any first threshold) and parameters (pw_formula_eq_function, induction over the list), '
     'piecewise_as_variable = function with first slope 1; Box-Cox: regular branch = (x^l-1)/l, value log x at l=0, series remainder '
     '<= |log x|^5 |l|^4/100 (Taylor remainder via Real.exp_bound), limit (x^l-1)/l -> log x and continuity of the implemented transform through 0; '
     'closed forms of normal/lognormal/uniform/triangular/logistic, |2.506628275 - sqrt(2 pi)| < 1e-9, uniform and triangular integrate to one, '
     'normal integrates to sqrt(2 pi)/2.506628275 (within 1e-9 of one), logistic cdf strictly increasing with limits 0 and 1; regression log likelihood = '
-    'log normal density up to constants bounded by 1e-9 (numeric bounds on exp proved); segmented parameter = reference + shift of the category for every '
+    'log normal density up to constants bounded by 1e-9; segmented parameter = reference + shift of the category for every '
     'list of segmentations (they add) and the generated code evaluates to the same value; nested-logit correlation = 1 - 1/mu_m^2 within a nest, 0 across, 1 on '
-    'the diagonal for disjoint duplicate-free nests. Tie: correspondence on the real expressions evaluated by the engine + oracles from the statement.',
+    'the diagonal for disjoint duplicate-free nests. (2) Round 3, the FORMULAS: Model/HelpersBuild.lean builds, statement by statement as the Python sources do, the '
+    'expression tree each helper returns (piecewise_variables / piecewise_formula / piecewise_as_variable incl. the parameters they create themselves, boxcox with Power or '
+    'PowerConstant according to the exponent, the five density helpers, loglikelihoodregression / likelihoodregression, Segmentation.segmented_beta and the expression '
+    'the generated code denotes); C17.pw_variables_built (every number type), pw_formula_built_eq_function, pw_as_variable_built_eq_function, boxcox_built_regular / '
+    '_series_bound / _special, densities_built, regression_built, segmented_built_value, segmented_code_built say that these trees, evaluated with the node semantics of '
+    'the engine, have the documented closed forms for every argument / parameter expression and environment; density_checks ties the build-time argument checks to the '
+    'hypotheses of the closed forms. Tie: (a) translator Generated/Helpers.lean regenerated on every run from the live helpers for 51 shapes (threshold lists of every '
+    'length 2..6 x open/closed ends, three kinds of Box-Cox exponent, every density helper, three segmentations + their code): the signature text read by the model of the '
+    'engine reader IS the tree of the Lean model (kernel-checked equality); (b) on every generated case the real signature text of every formula a helper built is read into a '
+    'tree by the driver and compared node by node with the tree of the Lean model, evaluated there, run by the PROVED engine model (Driver/Formula.lean via lib/leanrun.py) and '
+    'compared with the real engine, the closed-form Lean model and oracles from the statement.',
     design='DESIGN.md §5 C17',
-    technique='Lean 4 / Mathlib theorems over an executable NumOps model + differential correspondence with the real helper expressions and scipy oracles',
-    note='Partial: lognormal integral only numerically; IEEE rounding and the engine evaluation are validated, not proved. Known findings FC17a '
-    '(piecewise_variables with two thresholds) and FC17b (piecewise_as_variable uses the wrong variable) are reported as KNOWN-FINDING.',
+    technique='Lean 4 / Mathlib theorems over an executable NumOps model of values AND of the built expression trees + translator (live helper outputs -> Lean data, '
+    'kernel-checked equality with the model-built trees) + four-way correspondence (real engine, proved engine model on the real text, tree read from the text, closed form) '
+    '+ scipy / statement oracles',
+    note='Partial: lognormal integral only numerically; IEEE rounding validated, not proved; mixedloglikelihood (Monte-Carlo) only by an oracle (log of a draw-independent '
+    'probability) and the shape log(MonteCarlo(P)); boxcox with a Python float exponent (constant-folded, reflected comparisons) is tied by value only. The shared engine model '
+    'multiplies 0 * NaN = NaN where the real engine (bioExprTimes.cc) returns 0 for a zero left operand: rows with a logarithm of a negative number under a zero factor '
+    '(lognormalpdf at x < 0) are tied three-way (engine, tree with the real Times semantics, closed form) and tallied. Known finding FC17c: normalpdf / uniformpdf raise when a '
+    'parameter is a data variable. FC17a / FC17b / F05 / F06 are fixed in the repository (their theorems about the former code are kept as documentation).',
 )
 
 TRUSTED = [
-    'the C++ engine evaluates the helper expressions (modelled: zero-left-operand product/quotient, bioMin/bioMax branches, lazy Elem)',
+    'the C++ engine evaluates the helper expressions (now cross-checked on every formula against the proved engine model run on the real signature text and against the tree '
+    'evaluation of Model/HelpersBuild.lean with the modelled node semantics: zero-left-operand product/quotient, bioMin/bioMax branches, lazy Elem)',
+    'std::stod / Python float read the decimal literals of the signature text (leanrun.num_table); the translator writes those decimal texts as real literals',
     'R vs IEEE double: theorems over the reals, model run on Float, comparison with stated tolerances',
     'scipy.stats densities and numpy are used only by the oracles',
     'Python renders the generated segmentation code (exact string compared with the model) and exec() reads it back',
@@ -47,10 +70,15 @@ ASSUMPTIONS = [
     'thresholds weakly increasing with at least one numeric threshold (hypothesis of the piecewise theorems)',
     'x > 0 for Box-Cox statements (x = 0 is the special case returning 0), sigma > 0, a < c < b',
     'segmentation keys are integers (distinct, as in a dict); nests are disjoint and duplicate free',
+    'translator family uses dyadic thresholds (Python differences exact, so the decimal text of a width is its real value)',
 ]
+EXTRA_MODULES = list(leanrun.MODULES)
 RULE = (
-    'piecewise: threshold lists of 3-6 entries (open/closed ends, non-zero first threshold) with arguments at, just below/above and away from '
-    'every threshold; Box-Cox: l around +-1e-5 and 0; densities with non-standard parameters; segmentations with 1-3 variables; nested structures. '
+    'piecewise: threshold lists of 2-6 entries (open/closed ends, non-zero first threshold, float or int typed) with arguments at, just below/above and away from '
+    'every threshold, parameters given as Numeric / float / free / fixed / free-with-override Beta or created by the helper (betas=None); Box-Cox: l around +-1e-5 and 0, '
+    'exponent as Variable / free / fixed Beta / Numeric / float, x at 1, next to 1, near 0; densities with non-standard parameters (mode off-centre and next to an end point, '
+    'x <= 0 for the lognormal, end points for the uniform), parameters also as data variables; argument-check stream; segmentations with 1-3 variables, reference coded by several '
+    'values, negative codes, no non-reference category, class and function entry points; nested structures. '
     'non-trivial = piecewise case with a non-zero first threshold or an open end, Box-Cox case with |l| within 2e-5 of the switch, density with '
     'non-default parameters, segmentation with >= 1 non-reference category hit, correlation with >= 1 nest of >= 2 alternatives'
 )
@@ -59,6 +87,7 @@ W_TWO = 'models.piecewise.piecewise_variables (two thresholds)'
 W_ASVAR = 'models.piecewise.piecewise_as_variable'
 
 MATCHERS = {
+    'variable_param_normal_uniform': lambda case: isinstance(case, dict) and case.get('name') in ('normalpdf', 'uniformpdf') and 'variable' in (case.get('param_kinds') or []),
     'two_thresholds': lambda case: isinstance(case, dict) and len(case.get('ths', [])) == 2,
     'explained_by_as_coded': lambda case: isinstance(case, dict) and bool(case.get('explained_by_as_coded')),
 }
@@ -80,13 +109,119 @@ def make_db(cols: dict):
     return db.Database('c17', pd.DataFrame({k: np.array(v, dtype=float) for k, v in cols.items()}))
 
 
-def ev(expr, database, betas=None):
-    r = expr.get_value_c(database=database, betas=betas, prepare_ids=True)
-    return [float(v) for v in np.atleast_1d(r)]
+class EngineRefused(RuntimeError):
+    """the real calculator / engine raised while evaluating a helper formula"""
+
+
+# ties collected during check(): every formula a helper built is kept with the REAL signature text handed to the engine;
+# finish_ties() then (i) runs that text in the proved engine model (leanrun / Driver/Formula.lean), (ii) has the driver read the
+# same text into a tree, compare it node by node with the tree the Lean model of the helper builds and evaluate it, and compares
+# all of them with the real engine (and, in the callers, with the closed-form Lean model and the oracles).
+_TIES = None
+_TIE_COUNT: dict = {}
+_TIE_CAP = 400
+
+
+def ev(expr, database, betas=None, tie=None):
+    """real evaluation on every row through the real calculator; `tie` = {'what', 'case', 'where', 'tree', 'betas'}"""
+    o = leanrun.observe(expr, database, betas)
+    if 'values' not in o:
+        raise EngineRefused(o.get('error', 'no value'))
+    if tie is not None and _TIES is not None:
+        # thorough tier: at most _TIE_CAP formulas of each kind go through the Lean side (the real engine, the closed-form model and
+        # the oracles still see every case)
+        key = tie['what'].split('[')[0]
+        _TIE_COUNT[key] = _TIE_COUNT.get(key, 0) + 1
+        if _TIE_COUNT[key] <= _TIE_CAP:
+            _TIES.append({**tie, 'o': o})
+    return o['values']
+
+
+def leaf_of(kind, name, value):
+    """the leaf of the Lean tree that stands for a parameter handed to a helper, and the value the engine is given for it"""
+    if kind in ('numeric', 'float'):
+        return {'num': f2b(float(value))}, None
+    if kind == 'variable':
+        return {'var': name}, None
+    return {'beta': name}, (name, float(value))
+
+
+def finish_ties(ctx, res):
+    """three-way agreement on the formulas the helpers built"""
+    ties = _TIES or []
+    if not ties:
+        return
+    for t in ties:
+        o = t['o']
+        t['ans'] = None
+        if t.get('tree') is None or not o.get('signature') or o.get('data') is None:
+            continue
+        req = {'op': 'tree', 'text': o['signature'], 'nums': leanrun.num_table(o['signature']),
+               'benv': [[n, f2b(v)] for n, v in sorted((t.get('betas') or {}).items())],
+               'rows': [[[c, f2b(x)] for c, x in zip(o['columns'], row)] for row in o['data']], **t['tree']}
+        ctx.batch.add(req, lambda a, t=t: t.update(ans=a))
+    ctx.batch.flush()
+    leans = []
+    for i in range(0, len(ties), 1500):
+        leans += leanrun.lean_values([t['o'] for t in ties[i:i + 1500]])
+    for t, lv in zip(ties, leans):
+        o, what, case, where = t['o'], t['what'], t['case'], t['where']
+        vals = o['values']
+        scale = t.get('scale', 1.0)
+        a = t['ans']
+        text_vals = None
+        if a is not None:
+            if 'read' not in a:
+                res.diverge(f'{what}: the driver refused the tree request', case, a, o['signature'][-1:], where=where)
+                continue
+            if not a['read']:
+                res.diverge(f'{what}: the signature text is not read back as a tree of helper nodes', case, None, o['signature'][-3:], where=where)
+                continue
+            res.tally('tie:formula text read into a tree')
+            text_vals = [b2f(v) for v in a['text_vals']]
+            if not a['same']:
+                res.diverge(f'{what}: the formula the code built is not the formula the Lean model of the helper builds (node by node)',
+                            case, {'built_size': a['built_size'], 'built_vals': [b2f(v) for v in a['built_vals']][:4]},
+                            {'size': a['size'], 'vals': vals[:4], 'text': o['signature'][-4:]}, where=where)
+                continue
+            res.tally('tie:formula = Lean-built formula (node by node)')
+            bad = [i for i, (x, y) in enumerate(zip(vals, text_vals)) if not (close(x, y, rel=1e-9, abs_=1e-12 * scale) or (math.isnan(x) and math.isnan(y)))]
+            if bad:
+                i = bad[0]
+                res.diverge(f'{what}: real engine vs the real text evaluated as a tree with the engine node semantics', {**case, 'row': i}, text_vals[i], vals[i], where=where)
+                continue
+        # the shared, proved engine model on the same text
+        if lv is None:
+            continue
+        if isinstance(lv, tuple):
+            res.diverge(f'{what}: the text handed to the engine is not readable by the model of its reader', case, lv, o['signature'][-1:], where=where)
+            continue
+        res.tally('tie:formulas run by the proved engine model')
+        for i, (x, y) in enumerate(zip(vals, lv)):
+            if isinstance(y, tuple):
+                if y[1] in ('domain', 'choiceMissing', 'keyMissing'):
+                    res.tally('tie:outside the regular domain of the engine model')
+                    continue
+                res.diverge(f'{what}: engine model refuses ({y[1]}) where the real engine returns a number', {**case, 'row': i}, y, x, where=where)
+                break
+            if close(x, y, rel=1e-9, abs_=1e-12 * scale) or (math.isnan(x) and math.isnan(y)):
+                res.tally('tie:three-way rows (engine, engine model on the text, tree)' if text_vals is not None else 'tie:two-way rows (engine, engine model on the text)')
+                continue
+            if math.isnan(y) and text_vals is not None and close(x, text_vals[i], rel=1e-9, abs_=1e-12 * scale):
+                # the real engine's Times returns 0 for a zero left operand without looking at the right one (bioExprTimes.cc);
+                # the shared engine model multiplies (0 * NaN = NaN).  Only reachable outside the reals (log of a negative number).
+                res.tally('tie:NaN under a zero factor in the shared engine model (Times shortcut of the real engine)')
+                continue
+            res.diverge(f'{what}: real engine vs the real signature text run by the engine model', {**case, 'row': i}, y, x, where=where)
+            break
+
+
+KINDS = ['numeric', 'float', 'free', 'fixed', 'free_o']
 
 
 def as_beta_arg(kind, name, value):
-    """parameters are handed to the helpers as Numeric, float, free Beta or fixed Beta"""
+    """parameters are handed to the helpers as Numeric, float, free Beta, fixed Beta, or a free Beta whose value is given to the
+    calculator at evaluation time and differs from its initial value ('free_o')"""
     from biogeme.expressions import Beta, Numeric
 
     if kind == 'numeric':
@@ -95,7 +230,20 @@ def as_beta_arg(kind, name, value):
         return float(value)
     if kind == 'fixed':
         return Beta(name, value, None, None, 1)
+    if kind == 'free_o':
+        return Beta(name, value + 1.5, None, None, 0)
+    if kind == 'variable':
+        from biogeme.expressions import Variable
+
+        return Variable(name)          # the parameter comes from a column of the data (e.g. a scale that differs by observation)
     return Beta(name, value, None, None, 0)
+
+
+def beta_env(kinds, names, values):
+    """(values for the calculator's `betas` argument, values by name for the Lean side)"""
+    over = {n: float(v) for k, n, v in zip(kinds, names, values) if k == 'free_o'}
+    byname = {n: float(v) for k, n, v in zip(kinds, names, values) if k in ('free', 'fixed', 'free_o')}
+    return over, byname
 
 
 # --------------------------------------------------------------------------- piecewise
@@ -126,7 +274,7 @@ def pw_points(rng, ths, n_extra=4):
 
 
 def gen_thresholds(rng, k=None):
-    k = k or rng.randint(3, 6)
+    k = k or rng.choice([2, 3, 3, 4, 4, 5, 6])
     open_l = rng.random() < 0.3
     open_r = rng.random() < 0.3
     n_num = k - int(open_l) - int(open_r)
@@ -155,30 +303,75 @@ def gen_betas(rng, n):
     return [rng.choice([0.0, 1.0, -1.0, 2.0, rng.uniform(-3, 3), rng.uniform(-3, 3)]) for _ in range(n)]
 
 
-def run_pw_real(ths, betas, xs, beta_kinds):
+def th_strs(ths):
+    return [None if t is None else str(t) for t in ths]
+
+
+def default_beta_names(var, ths, first=0):
+    """names of the parameters the helpers create when none is given (written from the docstring:
+    beta_VAR_interval, interval = <a>_<b> with minus_inf / inf for the open ends)"""
+    out = []
+    for a, b in list(zip(ths, ths[1:]))[first:]:
+        out.append(f"beta_{var}_{'minus_inf' if a is None else a}_{'inf' if b is None else b}")
+    return out
+
+
+def run_pw_real(ths, betas, xs, beta_kinds, case=None):
     """drives the real piecewise helpers; returns a dict of outputs / error kinds"""
     from biogeme.expressions import Variable
     from biogeme.models import piecewise_variables, piecewise_formula, piecewise_as_variable, piecewise_function
 
     out = {}
     database = make_db({'x': xs})
+    base = {'kind': 'pw', 'ths': ths, 'betas': betas, 'beta_kinds': beta_kinds}
+    scale = max([1.0] + [abs(t) for t in ths if t is not None] + [abs(b) for b in betas] + [abs(x) for x in xs]) ** 2
+    e_ths = [None if t is None else f2b(float(t)) for t in ths]
+    xarg = (case or {}).get('xarg', 'var')
     try:
-        vs = piecewise_variables(Variable('x'), list(ths))
+        vs = piecewise_variables(Variable('x') if xarg == 'var' else 'x', list(ths))
         out['n_vars'] = len(vs)
-        out['vars'] = [ev(v, database) for v in vs]
+        out['vars'] = [ev(v, database, tie={'what': f'piecewise_variables[{i}]', 'case': base, 'where': 'models.piecewise.piecewise_variables', 'scale': scale,
+                                           'tree': {'helper': 'pw_var', 'x': {'var': 'x'}, 'ths': e_ths, 'index': i}}) for i, v in enumerate(vs)]
     except Exception as e:  # noqa: BLE001
         out['vars_err'] = core.exc_kind(e)
     try:
-        bs = [as_beta_arg(k, f'pb{i}', b) for i, (k, b) in enumerate(zip(beta_kinds, betas))]
-        out['formula'] = ev(piecewise_formula('x', list(ths), bs), database)
+        names = [f'pb{i}' for i in range(len(betas))]
+        bs = [as_beta_arg(k, n, b) for k, n, b in zip(beta_kinds, names, betas)]
+        over, byname = beta_env(beta_kinds, names, betas)
+        out['formula'] = ev(piecewise_formula('x' if xarg == 'var' else Variable('x'), list(ths), bs), database, betas=over,
+                            tie={'what': 'piecewise_formula', 'case': base, 'where': 'models.piecewise.piecewise_formula / piecewise_function', 'scale': scale, 'betas': byname,
+                                 'tree': {'helper': 'pw_formula', 'x': {'var': 'x'}, 'ths': e_ths, 'betas': [leaf_of(k, n, b)[0] for k, n, b in zip(beta_kinds, names, betas)]}})
     except Exception as e:  # noqa: BLE001
         out['formula_err'] = core.exc_kind(e)
+    if len(betas) == len(ths) - 1:
+        # betas=None: the helper creates the parameters itself (named after the intervals)
+        try:
+            names = default_beta_names('x', ths)
+            out['formula_default'] = ev(piecewise_formula('x', list(ths)), database, betas=dict(zip(names, betas)),
+                                        tie={'what': 'piecewise_formula (betas=None)', 'case': base, 'where': 'models.piecewise.piecewise_formula / piecewise_function',
+                                             'scale': scale, 'betas': dict(zip(names, [float(b) for b in betas])),
+                                             'tree': {'helper': 'pw_formula_default', 'var': 'x', 'ths': e_ths, 'th_strs': th_strs(ths)}})
+        except Exception as e:  # noqa: BLE001
+            out['formula_default_err'] = f'{core.exc_kind(e)}: {e}'[:200]
     if len(ths) >= 3 and len(betas) == len(ths) - 1:
         try:
-            bs = [as_beta_arg(k, f'pa{i}', b) for i, (k, b) in enumerate(zip(beta_kinds[1:], betas[1:]))]
-            out['asvar'] = ev(piecewise_as_variable(Variable('x'), list(ths), bs), database)
+            names = [f'pa{i}' for i in range(1, len(betas))]
+            bs = [as_beta_arg(k, n, b) for k, n, b in zip(beta_kinds[1:], names, betas[1:])]
+            over, byname = beta_env(beta_kinds[1:], names, betas[1:])
+            out['asvar'] = ev(piecewise_as_variable(Variable('x') if xarg == 'var' else 'x', list(ths), bs), database, betas=over,
+                              tie={'what': 'piecewise_as_variable', 'case': base, 'where': W_ASVAR, 'scale': scale, 'betas': byname,
+                                   'tree': {'helper': 'pw_asvar', 'x': {'var': 'x'}, 'ths': e_ths,
+                                            'betas': [leaf_of(k, n, b)[0] for k, n, b in zip(beta_kinds[1:], names, betas[1:])]}})
         except Exception as e:  # noqa: BLE001
             out['asvar_err'] = core.exc_kind(e)
+        try:
+            names = default_beta_names('x', ths, first=1)
+            out['asvar_default'] = ev(piecewise_as_variable('x', list(ths)), database, betas=dict(zip(names, betas[1:])),
+                                      tie={'what': 'piecewise_as_variable (betas=None)', 'case': base, 'where': W_ASVAR, 'scale': scale,
+                                           'betas': dict(zip(names, [float(b) for b in betas[1:]])),
+                                           'tree': {'helper': 'pw_asvar_default', 'var': 'x', 'ths': e_ths, 'th_strs': th_strs(ths)}})
+        except Exception as e:  # noqa: BLE001
+            out['asvar_default_err'] = f'{core.exc_kind(e)}: {e}'[:200]
     try:
         out['function'] = [float(piecewise_function(x, list(ths), list(betas))) for x in xs]
     except Exception as e:  # noqa: BLE001
@@ -187,13 +380,13 @@ def run_pw_real(ths, betas, xs, beta_kinds):
 
 
 def enc_ths(ths):
-    return [None if t is None else f2b(t) for t in ths]
+    return [None if t is None else f2b(float(t)) for t in ths]
 
 
 def check_pw(ctx, res, case, use_model=True):
     ths, betas, xs = case['ths'], case['betas'], case['xs']
     kinds = case.get('beta_kinds') or ['numeric'] * len(betas)
-    real = run_pw_real(ths, betas, xs, kinds)
+    real = run_pw_real(ths, betas, xs, kinds, case)
     k = len(ths)
     nums = [t for t in ths if t is not None]
     nontrivial = (ths[0] is None or ths[-1] is None or ths[0] != 0.0) and k >= 3
@@ -232,6 +425,22 @@ def check_pw(ctx, res, case, use_model=True):
         elif 'formula_err' in real or 'function_err' in real:
             res.violate('piecewise_formula / piecewise_function raise on a valid specification', {**base, 'xs': xs[:3]},
                         [real.get('formula_err'), real.get('function_err')], 'values', where=w_ff)
+        # ---- oracle: the same with the parameters the helpers create themselves (betas=None), values given at evaluation
+        if 'function' in real:
+            from biogeme.models import piecewise_function
+
+            for key, w, first in (('formula_default', w_ff, None), ('asvar_default', W_ASVAR, 1.0)):
+                if key in real:
+                    res.tally(f'pw:{key}')
+                    for j, x in enumerate(xs):
+                        exp = real['function'][j] if first is None else float(piecewise_function(x, list(ths), [first] + list(betas[1:])))
+                        if not close(real[key][j], exp, abs_=1e-10 * max(scale, abs(x)) * scale):
+                            res.violate(f'{key.split("_")[0]} built with betas=None differs from piecewise_function at the same parameter values',
+                                        {**base, 'xs': [x], 'default_betas': True}, real[key][j], exp, where=w)
+                            break
+                elif key + '_err' in real:
+                    res.violate(f'{key.split("_")[0]} with betas=None raises on a valid specification', {**base, 'xs': xs[:3], 'default_betas': True},
+                                real[key + '_err'], 'values', where=w)
 
     # ---- model
     if use_model:
@@ -302,7 +511,7 @@ def check_pw(ctx, res, case, use_model=True):
 def check_pw_errors(ctx, res, rng):
     """malformed threshold lists: the error of the code = the error of the model's checks"""
     from biogeme.expressions import Variable, Numeric
-    from biogeme.models import piecewise_variables, piecewise_formula, piecewise_function
+    from biogeme.models import piecewise_variables, piecewise_formula, piecewise_function, piecewise_as_variable
 
     bad = [
         ([], []),
@@ -313,6 +522,10 @@ def check_pw_errors(ctx, res, rng):
         ([1.0], []),
         ([1.0, 2.0, 3.0], [1.0]),
         ([None, 2.0, 3.0, None], [1.0, 1.0, 1.0, 1.0]),
+        ([1.0, 3.0], [2.0]),                 # valid; as a transformed variable: one interval, no term left for bioMultSum
+        ([None, 3.0], [2.0]),
+        ([1.0, 2.0, 4.0], [1.0, 1.0]),       # valid everywhere
+        ([1.0, 2.0, 4.0], [1.0, 1.0, 1.0]),  # one parameter too many for formula/function: exactly right for nothing
     ]
     for ths, betas in bad:
         got = {}
@@ -320,6 +533,8 @@ def check_pw_errors(ctx, res, rng):
             ('pw_vars', lambda: piecewise_variables(Variable('x'), list(ths))),
             ('pw_formula', lambda: piecewise_formula('x', list(ths), [Numeric(b) for b in betas])),
             ('pw_function', lambda: piecewise_function(1.0, list(ths), list(betas))),
+            ('pw_asvar', lambda: piecewise_as_variable('x', list(ths), [Numeric(b) for b in betas[1:]])),
+            ('pw_asvar_default', lambda: piecewise_as_variable('x', list(ths))),
         ):
             try:
                 f()
@@ -333,13 +548,16 @@ def check_pw_errors(ctx, res, rng):
             {'op': 'pw_vars', 'x': f2b(1.0), 'ths': enc_ths(ths)},
             {'op': 'pw_formula', 'x': f2b(1.0), 'ths': enc_ths(ths), 'betas': [f2b(b) for b in betas]},
             {'op': 'pw_function', 'x': f2b(1.0), 'ths': enc_ths(ths), 'betas': [f2b(b) for b in betas]},
+            {'op': 'pw_asvar_check', 'ths': enc_ths(ths), 'n_betas': len(betas[1:])},
+            {'op': 'pw_asvar_check', 'ths': enc_ths(ths), 'n_betas': None},
         ]
 
         def cb(ans, got=got, case=case, ths=ths):
             def kind(e):
                 return None if e is None else e.split(':')[0]
 
-            model = {'pw_vars': kind(ans[0]['err']), 'pw_formula': kind(ans[1]['err']), 'pw_function': kind(ans[2]['err'])}
+            model = {'pw_vars': kind(ans[0]['err']), 'pw_formula': kind(ans[1]['err']), 'pw_function': kind(ans[2]['err']),
+                     'pw_asvar': kind(ans[3]['err']), 'pw_asvar_default': kind(ans[4]['err'])}
             if len(ths) == 1:
                 # one numeric threshold: the function accepts it (returns 0), variables raise IndexError
                 model['pw_function'] = got['pw_function']
@@ -372,7 +590,7 @@ def gen_ells(rng):
 
 
 def gen_xs_pos(rng):
-    xs = [1.0, 0.5, 2.0, 5.0, 0.01, 100.0, 1e-3, 1e3, 0.0, math.e]
+    xs = [1.0, 0.5, 2.0, 5.0, 0.01, 100.0, 1e-3, 1e3, 0.0, math.e, 1e-8, math.nextafter(1.0, 0), math.nextafter(1.0, 2)]
     for _ in range(5):
         xs.append(math.exp(rng.uniform(-4, 4)))
     return xs
@@ -385,16 +603,32 @@ def check_boxcox(ctx, res, rng, use_model=True, ell_mode=None):
     ells, xs = gen_ells(rng), gen_xs_pos(rng)
     pairs = [(x, l) for x in xs for l in ells]
     database = make_db({'x': [p[0] for p in pairs], 'l': [p[1] for p in pairs]})
-    real = ev(boxcox(Variable('x'), Variable('l')), database)
+    W = 'models.boxcox.boxcox'
+    real = ev(boxcox(Variable('x'), Variable('l')), database,
+              tie={'what': 'boxcox(Variable, Variable)', 'case': {'kind': 'boxcox', 'mode': 'variable'}, 'where': W,
+                   'tree': {'helper': 'boxcox', 'x': {'var': 'x'}, 'l': {'var': 'l'}}})
     # the exponent as a parameter / constant (one l per evaluation)
     extra = []
-    for l in rng.sample(ells, 4):
-        mode = ell_mode or rng.choice(['beta', 'numeric'])
+    for l in rng.sample(ells, 6):
+        mode = ell_mode or rng.choice(['beta', 'numeric', 'fixed', 'float'])
         db2 = make_db({'x': xs})
+        tcase = {'kind': 'boxcox', 'mode': mode, 'l': l}
         if mode == 'beta':
-            vals = ev(boxcox(Variable('x'), Beta('ell', 0.3, -10, 10, 0)), db2, betas={'ell': l})
+            vals = ev(boxcox(Variable('x'), Beta('ell', 0.3, -10, 10, 0)), db2, betas={'ell': l},
+                      tie={'what': 'boxcox(Variable, free Beta)', 'case': tcase, 'where': W, 'betas': {'ell': l},
+                           'tree': {'helper': 'boxcox', 'x': {'var': 'x'}, 'l': {'beta': 'ell'}}})
+        elif mode == 'fixed':
+            vals = ev(boxcox(Variable('x'), Beta('ell', l, -10, 10, 1)), db2,
+                      tie={'what': 'boxcox(Variable, fixed Beta)', 'case': tcase, 'where': W, 'betas': {'ell': l},
+                           'tree': {'helper': 'boxcox', 'x': {'var': 'x'}, 'l': {'beta': 'ell'}}})
+        elif mode == 'float':
+            # a Python float exponent: Python folds ell**2, ell**3 and the comparisons are built reflected; same value, other tree
+            vals = ev(boxcox(Variable('x'), float(l)), db2, tie={'what': 'boxcox(Variable, float)', 'case': tcase, 'where': W, 'tree': None})
         else:
-            vals = ev(boxcox(Variable('x'), Numeric(l)), db2)
+            vals = ev(boxcox(Variable('x'), Numeric(l)), db2,
+                      tie={'what': 'boxcox(Variable, Numeric)', 'case': tcase, 'where': W,
+                           'tree': {'helper': 'boxcox', 'x': {'var': 'x'}, 'l': {'num': f2b(l)}}})
+        res.tally(f'boxcox:ell as {mode}')
         extra += [((x, l), v, mode) for x, v in zip(xs, vals)]
     allc = [((x, l), v, 'variable') for (x, l), v in zip(pairs, real)] + extra
     reqs = []
@@ -480,26 +714,47 @@ def textbook(name, args):
     if name == 'loglikreg':
         y, m, s = args
         return float(stats.norm.logpdf(y, m, s))
+    if name == 'likreg':
+        y, m, s = args
+        return float(stats.norm.pdf(y, m, s))
     raise ValueError(name)
 
 
-def build_dist(name, params, kinds):
+def build_dist(name, params, kinds, with_env=False):
     import biogeme.distributions as D
     from biogeme.expressions import Variable
-    from biogeme.loglikelihood import loglikelihoodregression
+    from biogeme.loglikelihood import loglikelihoodregression, likelihoodregression
 
     x = Variable('x')
-    ps = [as_beta_arg(k, f'dp{i}', p) for i, (k, p) in enumerate(zip(kinds, params))]
-    if name == 'loglikreg':
+    names = [f'dp{i}' for i in range(len(params))]
+    ps = [as_beta_arg(k, n, p) for k, n, p in zip(kinds, names, params)]
+    if name in ('loglikreg', 'likreg'):
         from biogeme.expressions import Numeric
 
         ps = [p if not isinstance(p, float) else Numeric(p) for p in ps]
-        return loglikelihoodregression(x, ps[0], ps[1])
-    return getattr(D, name)(x, *ps)
+        expr = (loglikelihoodregression if name == 'loglikreg' else likelihoodregression)(x, ps[0], ps[1])
+    else:
+        expr = getattr(D, name)(x, *ps)
+    if not with_env:
+        return expr
+    over, byname = beta_env(kinds, names, params)
+    return expr, over, byname, [{'var': 'x'}] + [leaf_of(k, n, p)[0] for k, n, p in zip(kinds, names, params)]
+
+
+W_VARPARAM = 'distributions.normalpdf / uniformpdf: build-time check of a parameter that is (or contains) a data variable'
+
+
+def ev_dist(name, params, kinds, xs, tied=True):
+    expr, over, byname, leaves = build_dist(name, params, kinds, with_env=True)
+    where = f'distributions.{name}' if name not in ('loglikreg', 'likreg') else 'loglikelihood.' + ('loglikelihoodregression' if name == 'loglikreg' else 'likelihoodregression')
+    tie = {'what': name, 'case': {'kind': 'dist', 'name': name, 'params': params, 'param_kinds': kinds}, 'where': where, 'betas': byname,
+           'tree': {'helper': 'dist', 'name': name, 'args': leaves}} if tied else None
+    cols = {'x': xs, **{f'dp{i}': [p] * len(xs) for i, (k, p) in enumerate(zip(kinds, params)) if k == 'variable'}}
+    return ev(expr, make_db(cols), betas=over, tie=tie)
 
 
 def gen_dist_case(rng, name, standard=False):
-    if name in ('normalpdf', 'lognormalpdf', 'logisticcdf', 'loglikreg'):
+    if name in ('normalpdf', 'lognormalpdf', 'logisticcdf', 'loglikreg', 'likreg'):
         mu = 0.0 if standard else rng.choice([rng.uniform(-3, 3), 0.3, -1.25])
         s = 1.0 if standard else rng.choice([rng.uniform(0.05, 5), 0.5, 2.0, 0.1])
         params = [mu, s]
@@ -516,12 +771,89 @@ def gen_dist_case(rng, name, standard=False):
         a = -1.0 if standard else rng.choice([rng.uniform(-5, 5), 0.0, 2.0])
         w = 2.0 if standard else rng.choice([rng.uniform(0.1, 6), 1.0, 4.0])
         b = a + w
-        c = 0.0 if standard else a + w * rng.choice([0.5, 0.25, rng.uniform(0.05, 0.95)])
+        c = 0.0 if standard else rng.choice([a + w * 0.5, a + w * 0.25, a + w * rng.uniform(0.05, 0.95), a + w * 0.875, a + w * 2.0**-30, b - w * 2.0**-30])
         params = [a, b, c]
         xs = [a, b, c, math.nextafter(a, -9), math.nextafter(b, 9), math.nextafter(c, -9), math.nextafter(c, 9), a - 1, b + 1]
         xs += [rng.uniform(a - 0.5, b + 0.5) for _ in range(6)]
-    kinds = [rng.choice(['numeric', 'float', 'free', 'fixed']) for _ in params]
+    # uniform / triangular compare the INITIAL values of their parameters with each other while the formula is built: no shifted initial value there
+    kinds = [rng.choice((KINDS if name not in ('uniformpdf', 'triangularpdf') else KINDS[:4]) + ['variable']) for _ in params]
     return {'kind': 'dist', 'name': name, 'params': params, 'xs': xs, 'param_kinds': kinds}
+
+
+def check_dist_errors(ctx, res, rng):
+    """parameters outside the documented domain given as literals (or parameters with such an initial value): ValueError while the
+    formula is built, exactly when the model's check says so; inside the domain: no error"""
+    import biogeme.distributions as D
+    from biogeme.expressions import Variable
+
+    cases = []
+    for s in (0.0, -1.0, -1e-300, 0.5, 1e-300):
+        for name in ('normalpdf', 'lognormalpdf', 'logisticcdf'):
+            cases.append((name, [0.25, s]))
+    for a, b in ((1.0, 1.0), (2.0, 1.0), (1.0, math.nextafter(1.0, 0)), (-1.0, 3.0)):
+        cases.append(('uniformpdf', [a, b]))
+    for a, b, c in ((0.0, 1.0, 0.0), (0.0, 1.0, 1.0), (0.0, 1.0, -0.5), (0.0, 1.0, 1.5), (0.0, 1.0, 0.5), (0.0, 1.0, math.nextafter(0.0, 1)), (2.0, 1.0, 1.5)):
+        cases.append(('triangularpdf', [a, b, c]))
+    for name, params in cases:
+        kinds = [rng.choice(['numeric', 'float', 'fixed', 'free']) for _ in params]
+        try:
+            getattr(D, name)(Variable('x'), *[as_beta_arg(k, f'dp{i}', p) for i, (k, p) in enumerate(zip(kinds, params))])
+            got = None
+        except Exception as e:  # noqa: BLE001
+            got = core.exc_kind(e)
+        case = {'kind': 'dist_error', 'name': name, 'params': params, 'param_kinds': kinds}
+        res.count(case, nontrivial=False)
+        res.tally('dist:argument checks')
+        # oracle from the docstrings: sigma > 0; a <= b (a < b assumed, a = b not refused); a < c < b
+        if name == 'uniformpdf':
+            expect = 'ValueError' if params[0] > params[1] else None
+        elif name == 'triangularpdf':
+            expect = None if params[0] < params[2] < params[1] else 'ValueError'
+        else:
+            expect = None if params[1] > 0 else 'ValueError'
+        if got != expect:
+            res.violate(f'{name}: argument check of the documented domain', case, got, expect, where=f'distributions.{name} (argument checks)')
+
+        def cb(a, got=got, case=case):
+            m = 'ValueError' if a['raises'] else None
+            if m != got:
+                res.diverge('argument checks of the density helpers vs Helpers.*Check', case, m, got)
+
+        ctx.batch.add({'op': 'dist_check', 'name': name, 'args': [f2b(p) for p in params]}, cb)
+
+
+def check_mixed(ctx, res, rng):
+    """mixedloglikelihood(P) = log(MonteCarlo(P)): for an integrand whose value does not depend on the draw (a draw multiplied by a
+    literal zero) the simulated log likelihood is log P on every row; the expression returned is log -> MonteCarlo -> P itself"""
+    from biogeme.expressions import Variable, Numeric, bioDraws, exp
+    from biogeme.loglikelihood import mixedloglikelihood, loglikelihood
+    import biogeme.distributions as D
+
+    where = 'loglikelihood.mixedloglikelihood'
+    for _ in range(ctx.n(3, 40)):
+        mu, s = rng.choice([0.3, -1.25, rng.uniform(-2, 2)]), rng.choice([0.5, 2.0, rng.uniform(0.1, 4)])
+        xs = [mu, mu + s, mu - 2 * s, rng.uniform(mu - 4 * s, mu + 4 * s)]
+        nd = rng.choice([1, 3, 10])
+        case = {'kind': 'mixed', 'mu': mu, 's': s, 'xs': xs, 'draws': nd}
+        res.count(case, nontrivial=True)
+        res.tally('mixedloglikelihood')
+        try:
+            p = D.normalpdf(Variable('x'), mu, s) * exp(Numeric(0) * bioDraws('xi', rng.choice(['NORMAL', 'UNIFORM'])))
+            e = mixedloglikelihood(p)
+            shape = [type(e).__name__, type(e.child).__name__, e.child.child is p]
+            vals = [float(v) for v in np.atleast_1d(e.get_value_c(database=make_db({'x': xs}), number_of_draws=nd, prepare_ids=True))]
+            plain = ev(loglikelihood(D.normalpdf(Variable('x'), mu, s)), make_db({'x': xs}))
+        except Exception as ex:  # noqa: BLE001
+            res.violate(f'mixedloglikelihood raises {core.exc_kind(ex)}: {str(ex)[:120]}', case, core.exc_kind(ex), 'values', where=where)
+            continue
+        if shape != ['log', 'MonteCarlo', True]:
+            res.violate('mixedloglikelihood(P) is not log(MonteCarlo(P))', case, shape, ['log', 'MonteCarlo', True], where=where)
+            continue
+        for x, v, q in zip(xs, vals, plain):
+            exp_ = textbook('loglikreg', [x, mu, s])
+            if abs(v - exp_) > 1e-9 + 1e-12 * abs(exp_) or abs(v - q) > 1e-12 * max(1.0, abs(q)):
+                res.violate('simulated log likelihood of a draw-independent probability is not its logarithm', {**case, 'xs': [x]}, v, exp_, where=where)
+                break
 
 
 def integral_of(name, params, kinds):
@@ -532,24 +864,26 @@ def integral_of(name, params, kinds):
         h = (hi - lo) / n
         return [lo + (i + 0.5) * h for i in range(n)], h
 
-    expr = build_dist(name, params, kinds)
+    def evx(pts):
+        return ev_dist(name, params, kinds, pts, tied=False)
+
     if name == 'normalpdf':
         mu, s = params
         pts, h = mid(mu - 10 * s, mu + 10 * s)
-        return sum(ev(expr, make_db({'x': pts}))) * h
+        return sum(evx(pts)) * h
     if name == 'lognormalpdf':
         mu, s = params
         ts, h = mid(mu - 10 * s, mu + 10 * s)
         pts = [math.exp(t) for t in ts]
-        vals = ev(expr, make_db({'x': pts}))
+        vals = evx(pts)
         return sum(v * p for v, p in zip(vals, pts)) * h
     if name == 'uniformpdf':
         a, b = params
         pts, h = mid(a, b)
-        out = sum(ev(expr, make_db({'x': pts}))) * h
+        out = sum(evx(pts)) * h
         lo, h2 = mid(a - 3, a)
         hi, _ = mid(b, b + 3)
-        out += (sum(ev(expr, make_db({'x': lo}))) + sum(ev(expr, make_db({'x': hi})))) * h2
+        out += (sum(evx(lo)) + sum(evx(hi))) * h2
         return out
     if name == 'triangularpdf':
         a, b, c = params
@@ -557,18 +891,20 @@ def integral_of(name, params, kinds):
         p2, h2 = mid(c, b)
         p0, h0 = mid(a - 2, a)
         p3, h3 = mid(b, b + 2)
-        return (sum(ev(expr, make_db({'x': p1}))) * h1 + sum(ev(expr, make_db({'x': p2}))) * h2
-                + sum(ev(expr, make_db({'x': p0}))) * h0 + sum(ev(expr, make_db({'x': p3}))) * h3)
+        return (sum(evx(p1)) * h1 + sum(evx(p2)) * h2
+                + sum(evx(p0)) * h0 + sum(evx(p3)) * h3)
     raise ValueError(name)
 
 
 def check_dist(ctx, res, case, use_model=True, with_integral=False):
     name, params, xs, kinds = case['name'], case['params'], case['xs'], case['param_kinds']
-    where = f'distributions.{name}' if name != 'loglikreg' else 'loglikelihood.loglikelihoodregression'
+    where = f'distributions.{name}' if name not in ('loglikreg', 'likreg') else 'loglikelihood.' + ('loglikelihoodregression' if name == 'loglikreg' else 'likelihoodregression')
     try:
-        real = ev(build_dist(name, params, kinds), make_db({'x': xs}))
+        real = ev_dist(name, params, kinds, xs)
     except Exception as e:  # noqa: BLE001
-        res.violate(f'{name} raises {core.exc_kind(e)}: {e} on valid parameters', {**case, 'xs': xs[:2]}, core.exc_kind(e), 'values', where=where)
+        w = W_VARPARAM if ('variable' in kinds and core.exc_kind(e) == 'BiogemeError' and 'getValue' in str(e)) else where
+        res.violate(f'{name} raises {core.exc_kind(e)}: {str(e)[:120]} on valid parameters', {**case, 'xs': xs[:2]}, core.exc_kind(e), 'values', where=w)
+        res.tally(f'dist:{name} raises while being built')
         return
     std = {'normalpdf': [0.0, 1.0], 'lognormalpdf': [0.0, 1.0], 'logisticcdf': [0.0, 1.0], 'uniformpdf': [-1.0, 1.0],
            'triangularpdf': [-1.0, 1.0, 0.0]}.get(name)
@@ -589,7 +925,7 @@ def check_dist(ctx, res, case, use_model=True, with_integral=False):
         vals = [real[i] for i in order]
         if any(b < a for a, b in zip(vals, vals[1:])) or not all(0.0 <= v <= 1.0 for v in vals):
             res.violate('logistic cdf is not monotone within [0, 1]', case, vals, 'non-decreasing', where=where)
-        far = ev(build_dist(name, params, kinds), make_db({'x': [params[0] - 800 * params[1], params[0] + 800 * params[1]]}))
+        far = ev_dist(name, params, kinds, [params[0] - 800 * params[1], params[0] + 800 * params[1]], tied=False)
         if not (far[0] <= 1e-300 and far[1] == 1.0):
             res.violate('logistic cdf limits are not 0 and 1', case, far, [0.0, 1.0], where=where)
     if with_integral and name in ('normalpdf', 'lognormalpdf', 'uniformpdf', 'triangularpdf'):
@@ -620,10 +956,14 @@ def gen_seg_case(rng):
     nseg = rng.randint(1, 3)
     specs = []
     for var in rng.sample(SEGVARS, nseg):
-        ncat = rng.randint(2, 4)
+        ncat = rng.choice([1, 2, 2, 3, 3, 4])
         cats = rng.sample(CATS, ncat)
-        keys = rng.sample([-2, 0, 1, 2, 3, 5, 7, 10, 12], ncat + (1 if rng.random() < 0.2 else 0))
-        mapping = [[k, cats[i % ncat]] for i, k in enumerate(keys)]
+        # several values of the variable may code the same category (also the reference one); negative codes
+        keys = rng.sample([-7, -2, -1, 0, 1, 2, 3, 5, 7, 10, 12], ncat + rng.choice([0, 0, 0, 1, 1, 2]))
+        if rng.random() < 0.5:
+            mapping = [[k, cats[i % ncat]] for i, k in enumerate(keys)]
+        else:
+            mapping = [[k, cats[i] if i < ncat else rng.choice(cats)] for i, k in enumerate(keys)]
         ref = rng.choice([None] + cats)
         specs.append({'var': var, 'mapping': [{'key': k, 'cat': c} for k, c in mapping], 'reference': ref})
     beta = rng.choice(['b', 'B_TIME', 'asc1'])
@@ -632,11 +972,12 @@ def gen_seg_case(rng):
     names = {beta} | {f'{beta}_{m["cat"]}' for s in specs for m in s['mapping']}
     values = {n: rng.choice([rng.uniform(-2, 2), 0.25, -0.5, 1.0]) for n in sorted(names)}
     return {'kind': 'seg', 'beta': beta, 'init': init, 'lb': lb, 'ub': ub, 'specs': specs, 'values': values,
-            'prefix': rng.choice(['segmented', 'seg'])}
+            'prefix': rng.choice(['segmented', 'seg']), 'entry': rng.choice(['class', 'class', 'function'])}
 
 
 def run_seg_real(case):
     from biogeme.expressions import Beta, Variable, bioMultSum
+    from biogeme import segmentation
     from biogeme.segmentation import Segmentation, DiscreteSegmentationTuple
 
     b = Beta(case['beta'], case['init'], case['lb'], case['ub'], 0)
@@ -648,7 +989,18 @@ def run_seg_real(case):
     rows = list(itertools.product(*[[m['key'] for m in s['mapping']] + [99] for s in case['specs']]))[:80]
     cols = {s['var']: [r[i] for r in rows] for i, s in enumerate(case['specs'])}
     database = make_db(cols)
-    vals = ev(seg.segmented_beta(), database, betas=case['values'])
+    W = 'segmentation.Segmentation.segmented_beta'
+    byname = {n: float(v) for n, v in case['values'].items()}
+    tcase = {k: case[k] for k in ('kind', 'beta', 'specs', 'prefix')}
+    if case.get('entry') == 'function':
+        # module-level entry point
+        built = segmentation.segmented_beta(b, tuples, prefix=case['prefix'])
+        what = 'segmentation.segmented_beta (function)'
+    else:
+        built = seg.segmented_beta()
+        what = 'Segmentation.segmented_beta'
+    vals = ev(built, database, betas=case['values'],
+              tie={'what': what, 'case': tcase, 'where': W, 'betas': byname, 'tree': {'helper': 'seg', 'beta': case['beta'], 'specs': case['specs']}})
     code = seg.segmented_code()
     ns = {'Beta': Beta, 'bioMultSum': bioMultSum, 'Variable': Variable}
     exec(code, ns)  # noqa: S102 - the generated specification code is the object under test
@@ -657,7 +1009,9 @@ def run_seg_real(case):
         expr = ns[target]
     else:
         expr = eval(code.strip().split('\n')[-1], ns)  # noqa: S307
-    code_vals = ev(expr, database, betas=case['values'])
+    code_vals = ev(expr, database, betas=case['values'],
+                   tie={'what': 'exec(Segmentation.segmented_code())', 'case': tcase, 'where': 'segmentation.Segmentation.segmented_code', 'betas': byname,
+                        'tree': {'helper': 'segcode', 'beta': case['beta'], 'specs': case['specs']}})
     tokens = {'init': str(b.initValue), 'lb': str(b.lb), 'ub': str(b.ub), 'status': str(b.status)}
     return rows, vals, code, code_vals, tokens
 
@@ -695,6 +1049,11 @@ def check_seg(ctx, res, case, use_model=True):
             break
     res.count({'seg': case}, nontrivial=hits > 0)
     res.tally(f'seg:nvars={len(case["specs"])}')
+    res.tally(f'seg:entry={case.get("entry", "class")}')
+    if any(len({m['key'] for m in s['mapping'] if m['cat'] == (s['reference'] if s['reference'] is not None else s['mapping'][0]['cat'])}) > 1 for s in case['specs']):
+        res.tally('seg:reference coded by several values')
+    if all(len({m['cat'] for m in s['mapping']}) == 1 for s in case['specs']):
+        res.tally('seg:no non-reference category (bare parameter code)')
     if use_model:
         reqs = []
         for row in rows:
@@ -797,6 +1156,211 @@ def check_corr(ctx, res, case, use_model=True):
         ctx.batch.add(req, cb)
 
 
+# --------------------------------------------------------------------------- translator: Generated/Helpers.lean
+
+GEN_FILE = core.LEAN / 'Generated' / 'Helpers.lean'
+T_NUMS = [1.0, 2.5, 3.0, 5.25, 8.0, 9.5]          # dyadic: Python's differences are exact, their repr is their decimal value
+T_SEGS = [
+    [{'var': 'inc', 'mapping': [{'key': -2, 'cat': 'low'}, {'key': 1, 'cat': 'mid'}, {'key': 3, 'cat': 'high'}, {'key': 7, 'cat': 'mid'}], 'reference': 'mid'}],
+    [{'var': 'sex', 'mapping': [{'key': 0, 'cat': 'm'}, {'key': 1, 'cat': 'f'}], 'reference': None},
+     {'var': 'age', 'mapping': [{'key': 10, 'cat': 'b10'}, {'key': 2, 'cat': 'b2'}, {'key': -1, 'cat': 'b2'}], 'reference': 'b10'}],
+    [{'var': 'v', 'mapping': [{'key': 1, 'cat': 'only'}, {'key': 5, 'cat': 'only'}], 'reference': None}],
+]
+
+
+def _lean_num(tok):
+    from decimal import Decimal
+
+    d = Decimal(tok)
+    txt = format(abs(d), 'f')
+    if '.' not in txt:
+        txt += '.0'
+    return f'(-{txt})' if d < 0 else txt
+
+
+def _lean_str(s):
+    import json
+
+    return json.dumps(s)
+
+
+def _lean_specs(specs):
+    out = []
+    for sp in specs:
+        m = ', '.join(f"({e['key']}, {_lean_str(e['cat'])})" for e in sp['mapping'])
+        r = 'none' if sp['reference'] is None else f"some {_lean_str(sp['reference'])}"
+        out.append(f"⟨{_lean_str(sp['var'])}, [{m}], {r}⟩")
+    return '[' + ', '.join(out) + ']'
+
+
+def translator_shapes():
+    """(name, build() -> real expression, tree request, Lean term of the model's builder) for a fixed family of shapes"""
+    from biogeme.expressions import Variable, Beta, Numeric
+
+    shapes = []
+    for k in range(2, 7):
+        for ol, orr in ((False, False), (True, False), (False, True), (True, True)):
+            n = k - int(ol) - int(orr)
+            if n < 1:
+                continue
+            nums = T_NUMS[:n]
+            ths = ([None] if ol else []) + nums + ([None] if orr else [])
+            tag = f"K{k}_{'o' if ol else 'c'}{'o' if orr else 'c'}"
+            lths = f"(mkThs {str(ol).lower()} [{', '.join(_lean_num(repr(t)) for t in nums)}] {str(orr).lower()})"
+            lstrs = '[' + ', '.join('none' if t is None else f'some {_lean_str(str(t))}' for t in ths) + ']'
+            e_ths = [None if t is None else f2b(t) for t in ths]
+
+            def b_formula(ths=ths):
+                from biogeme.models import piecewise_formula
+
+                return piecewise_formula('x', list(ths))
+
+            sorted_pf = ('(by simp only [List.pairwise_cons, List.mem_cons, List.not_mem_nil, or_false, forall_eq_or_imp, forall_eq, IsEmpty.forall_iff, '
+                         'implies_true, List.Pairwise.nil, and_true] <;> norm_num)')
+            olb, orb = str(ol).lower(), str(orr).lower()
+            shapes.append((f'pw_formula_{tag}', b_formula, {'helper': 'pw_formula_default', 'var': 'x', 'ths': e_ths, 'th_strs': th_strs(ths)},
+                           f'pwFormulaE (.var "x") {lths} ((pwBetaNames "x" {lstrs}).map .beta)',
+                           (f'pwFunction (env.var "x") {lths} (((pwBetaNames "x" {lstrs}).map .beta).map (evalT env))',
+                            f'C17.pw_formula_built_eq_function env _ {olb} {orb} _ _ _ {sorted_pf}')))
+            if k >= 3:
+                def b_asvar(ths=ths):
+                    from biogeme.models import piecewise_as_variable
+
+                    return piecewise_as_variable(Variable('x'), list(ths))
+
+                shapes.append((f'pw_as_variable_{tag}', b_asvar, {'helper': 'pw_asvar_default', 'var': 'x', 'ths': e_ths, 'th_strs': th_strs(ths)},
+                               f'pwAsVariableE (.var "x") {lths} ((pwBetaNames "x" {lstrs}.tail).map .beta)',
+                               (f'pwFunction (env.var "x") {lths} (1 :: ((pwBetaNames "x" {lstrs}.tail).map .beta).map (evalT env))',
+                                f'C17.pw_as_variable_built_eq_function env _ {olb} {orb} _ _ _ {sorted_pf}')))
+
+    def bx(l):
+        from biogeme.models import boxcox
+
+        return lambda: boxcox(Variable('x'), l())
+
+    shapes.append(('boxcox_variable', bx(lambda: Variable('l')), {'helper': 'boxcox', 'x': {'var': 'x'}, 'l': {'var': 'l'}}, 'boxcoxE (.var "x") (.var "l")'))
+    shapes.append(('boxcox_beta', bx(lambda: Beta('ell', 0.25, -10, 10, 0)), {'helper': 'boxcox', 'x': {'var': 'x'}, 'l': {'beta': 'ell'}}, 'boxcoxE (.var "x") (.beta "ell")'))
+    shapes.append(('boxcox_numeric', bx(lambda: Numeric(0.5)), {'helper': 'boxcox', 'x': {'var': 'x'}, 'l': {'num': f2b(0.5)}}, 'boxcoxE (.var "x") (.num 0.5)'))
+    lean_name = {'normalpdf': 'normalpdfE', 'lognormalpdf': 'lognormalpdfE', 'uniformpdf': 'uniformpdfE', 'triangularpdf': 'triangularpdfE',
+                 'logisticcdf': 'logisticcdfE', 'loglikreg': 'loglikRegE', 'likreg': 'likRegE'}
+    for name, params, kinds in (('normalpdf', [0.5, 2.0], ['numeric', 'free']), ('lognormalpdf', [0.25, 0.5], ['fixed', 'float']),
+                                ('uniformpdf', [-1.5, 2.0], ['float', 'numeric']), ('triangularpdf', [-1.0, 3.0, 0.5], ['numeric', 'free', 'fixed']),
+                                ('logisticcdf', [0.5, 2.0], ['free', 'numeric']), ('loglikreg', [0.5, 2.0], ['free', 'free']),
+                                ('likreg', [0.5, 2.0], ['numeric', 'fixed'])):
+        leaves = [leaf_of(k, f'dp{i}', p)[0] for i, (k, p) in enumerate(zip(kinds, params))]
+        lleaves = ' '.join(f'(.beta {_lean_str(l["beta"])})' if 'beta' in l else f'(.num {_lean_num(repr(p))})' for l, p in zip(leaves, params))
+        shapes.append((f'{name}_shape', (lambda name=name, params=params, kinds=kinds: build_dist(name, params, kinds)),
+                       {'helper': 'dist', 'name': name, 'args': [{'var': 'x'}] + leaves}, f'{lean_name[name]} (.var "x") {lleaves}'))
+    for i, specs in enumerate(T_SEGS):
+        def b_seg(specs=specs, code=False):
+            from biogeme.expressions import bioMultSum
+            from biogeme.segmentation import Segmentation, DiscreteSegmentationTuple
+
+            b = Beta('b', 0.5, None, None, 0)
+            seg = Segmentation(b, [DiscreteSegmentationTuple(sp['var'], {m['key']: m['cat'] for m in sp['mapping']}, reference=sp['reference']) for sp in specs])
+            if not code:
+                return seg.segmented_beta()
+            ns = {'Beta': Beta, 'bioMultSum': bioMultSum, 'Variable': Variable}
+            text = seg.segmented_code()
+            exec(text, ns)  # noqa: S102
+            return ns['segmented_b'] if 'segmented_b' in ns else eval(text.strip().split('\n')[-1], ns)  # noqa: S307
+
+        shapes.append((f'segmented_beta_{i}', b_seg, {'helper': 'seg', 'beta': 'b', 'specs': specs}, f'segmentedBetaE "b" {_lean_specs(specs)}'))
+        shapes.append((f'segmented_code_{i}', (lambda specs=specs: b_seg(specs, True)), {'helper': 'segcode', 'beta': 'b', 'specs': specs},
+                       f'segmentedCodeE "b" {_lean_specs(specs)}'))
+    return shapes
+
+
+def translate(ctx):
+    """regenerate lean/Generated/Helpers.lean: for a fixed family of shapes (threshold lists of every length 2..6 with open/closed
+    ends, the three kinds of Box-Cox exponent, every density helper, segmentations) the expression the LIVE helper returns -- its
+    signature text read by the model of the engine's reader -- is written as Lean data, with the obligation that it IS the tree the
+    Lean model of the helper builds (so the closed-form theorems of Props/C17.lean are about the formula the code really builds)"""
+    import re
+
+    obligations = []
+    ok_b, log_b = core.lean_build(['Props.C17', 'Driver.Common'])
+    if not ok_b:
+        return [{'name': 'Generated.Helpers', 'ok': False, 'why': 'the builder model does not build: ' + log_b[-300:]}]
+    items, reqs = [], []
+    with core.scratch():
+        database = make_db({'x': [0.5, 2.0], 'l': [0.5, 0.0], 'inc': [1, 3], 'sex': [0, 1], 'age': [2, 10], 'v': [1, 5]})
+        for name, build, tree, lterm, *more in translator_shapes():
+            try:
+                o = leanrun.observe(build(), database)
+            except Exception as e:  # noqa: BLE001
+                obligations.append({'name': f'Generated.Helpers.{name}_eq', 'ok': False, 'why': f'the helper raises on this shape: {core.exc_kind(e)}: {e}'[:300]})
+                continue
+            if not o.get('signature'):
+                obligations.append({'name': f'Generated.Helpers.{name}_eq', 'ok': False, 'why': f'no formula reached the engine: {o.get("error")}'[:300]})
+                continue
+            items.append((name, o, lterm, more[0] if more else None))
+            reqs.append({'op': 'tree', 'text': o['signature'], 'nums': leanrun.num_table(o['signature']), 'benv': [], 'rows': [], 'render': True, **tree})
+    answers = ctx.driver.ask(reqs) if reqs else []
+    lines = ['/- GENERATED by harness/props/c17.py (translate) from the live helpers of the library on every run -- do not edit.',
+             'For each shape: `g_<shape>` is the expression the helper returned (its signature text, read by the model of the engine\'s',
+             'reader, as a tree with decimal literals as written in the text); `<shape>_eq` states that it is the tree the Lean model of the',
+             'helper (Model/HelpersBuild.lean) builds for that shape.  The closed-form theorems of Props/C17.lean (section "the formulas the',
+             'helpers build") are about the right-hand sides; `<shape>_value` applies them: the formula the code built for the shape coincides with the plain',
+             'piecewise function at every argument and parameter values. -/', 'import Model.HelpersBuild', 'import Proofs.HelpersBuild', 'import Props.C17', '',
+             'namespace GenHelpers', 'open HelpersBuild Helpers Expr', '']
+    names = []
+    for (name, o, lterm, value), a in zip(items, answers):
+        if not a.get('read') or 'render' not in a:
+            obligations.append({'name': f'Generated.Helpers.{name}_eq', 'ok': False, 'why': 'the signature text is not read back as a tree of helper nodes'})
+            continue
+        tok_of = {}
+        for tok, bits in leanrun.num_table(o['signature']):
+            tok_of.setdefault(bits, tok)
+        term = re.sub(r'NUM(\d+)', lambda m: _lean_num(tok_of[int(m.group(1))]), a['render'])
+        lines += [f'noncomputable def g_{name} : HE ℝ :=', f'  {term}', '', f'theorem {name}_eq : g_{name} = {lterm} := by', f'  unfold g_{name}', '  helpers_eq', '']
+        names.append(f'{name}_eq')
+        if value is not None:
+            # the closed-form theorem of Props/C17.lean applied to the formula the code built for this shape
+            lines += [f'theorem {name}_value (env : Env ℝ) : evalT env g_{name} = {value[0]} := by', f'  rw [{name}_eq, {value[1]}]', '  simp [evalT_var]', '']
+            names.append(f'{name}_value')
+    lines += ['end GenHelpers', '']
+    text = '\n'.join(lines)
+    if not GEN_FILE.exists() or GEN_FILE.read_text() != text:
+        GEN_FILE.write_text(text)
+    ok, log = core.lean_build(['Generated.Helpers'])
+    failed = set()
+    if not ok:
+        tl = text.splitlines()
+        starts = {n: next(i for i, l in enumerate(tl, 1) if l.startswith(f'theorem {n} ')) for n in names}
+        for m in re.finditer(r'error: Generated/Helpers\.lean:(\d+):\d+', log):
+            ln = int(m.group(1))
+            owner = max((n for n in names if starts[n] <= ln), key=lambda n: starts[n], default=None)
+            if owner:
+                failed.add(owner)
+        if not failed:
+            failed = set(names)
+    axioms_bad = {}
+    if ok and names:
+        import os
+        import tempfile
+
+        with tempfile.NamedTemporaryFile('w', suffix='.lean', dir=core.LEAN, delete=False) as tf:
+            tf.write('import Generated.Helpers\n' + ''.join(f'#print axioms GenHelpers.{n}\n' for n in names))
+            tname = tf.name
+        try:
+            pr = core.lake(['env', 'lean', tname])
+            out = (pr.stdout or '') + (pr.stderr or '')
+        finally:
+            os.unlink(tname)
+        for n in names:
+            m = re.search(r"'GenHelpers\." + re.escape(n) + r"' (does not depend on any axioms|depends on axioms: \[([^\]]*)\])", out, flags=re.S)
+            axs = {x.strip() for x in (m.group(2) or '').replace('\n', ' ').split(',') if x.strip()} if m else {'?'}
+            if not axs <= core.ALLOWED_AXIOMS:
+                axioms_bad[n] = sorted(axs)
+    for n in names:
+        bad = n in failed or n in axioms_bad
+        obligations.append({'name': f'Generated.Helpers.{n}', 'ok': not bad,
+                            'why': '' if not bad else (f'axioms {axioms_bad[n]}' if n in axioms_bad else
+                                                       'the formula the live helper builds for this shape is not the formula of the Lean model (helpers_eq fails)')})
+    return obligations
+
+
 # --------------------------------------------------------------------------- the check
 
 CORPUS = [
@@ -829,11 +1393,15 @@ def stream(ctx, res, rng, n_pw, n_box, n_dist, n_seg, n_corr, n_int, use_model=T
     for _ in range(n_pw):
         ths = gen_thresholds(rng)
         betas = gen_betas(rng, len(ths) - 1)
-        kinds = [rng.choice(['numeric', 'float', 'free', 'fixed']) for _ in betas]
-        check_pw(ctx, res, {'kind': 'pw', 'ths': ths, 'betas': betas, 'xs': pw_points(rng, ths), 'beta_kinds': kinds}, use_model)
+        kinds = [rng.choice(KINDS) for _ in betas]
+        if all(t is None or float(t).is_integer() for t in ths) and rng.random() < 0.5:
+            ths = [None if t is None else int(t) for t in ths]          # Python ints: names beta_x_1_5, Numeric(1)
+            res.tally('pw:int-typed thresholds')
+        check_pw(ctx, res, {'kind': 'pw', 'ths': ths, 'betas': betas, 'xs': pw_points(rng, ths), 'beta_kinds': kinds,
+                            'xarg': rng.choice(['var', 'name'])}, use_model)
     for _ in range(n_box):
         check_boxcox(ctx, res, rng, use_model)
-    names = ['normalpdf', 'lognormalpdf', 'uniformpdf', 'triangularpdf', 'logisticcdf', 'loglikreg']
+    names = ['normalpdf', 'lognormalpdf', 'uniformpdf', 'triangularpdf', 'logisticcdf', 'loglikreg', 'likreg']
     for i in range(n_dist):
         check_dist(ctx, res, gen_dist_case(rng, names[i % len(names)], standard=(i < len(names) and i % 2 == 0)), use_model)
     for i in range(n_int):
@@ -851,14 +1419,30 @@ def check(ctx) -> Result:
     res = Result(rule=RULE, tolerance='model vs code: 1e-10..1e-12 relative (Box-Cox regular branch: + cancellation allowance eps/|l|); '
                  'oracles: 1e-9 relative for densities, series remainder bound for Box-Cox, 1e-11 for piecewise')
     rng = ctx.rng
-    with core.scratch():
-        for c in CORPUS:
-            dispatch(ctx, res, dict(c))
-            res.tally('corpus')
-        check_pw_errors(ctx, res, rng)
-        stream(ctx, res, rng, n_pw=ctx.n(150, 4000), n_box=ctx.n(5, 80), n_dist=ctx.n(60, 2000), n_seg=ctx.n(50, 1500),
-               n_corr=ctx.n(80, 2500), n_int=ctx.n(8, 120))
-        ctx.batch.flush()
+    global _TIES
+    _TIES = []
+    _TIE_COUNT.clear()
+    try:
+        with core.scratch():
+            for c in CORPUS:
+                dispatch(ctx, res, dict(c))
+                res.tally('corpus')
+            check_pw_errors(ctx, res, rng)
+            check_dist_errors(ctx, res, rng)
+            check_mixed(ctx, res, rng)
+            stream(ctx, res, rng, n_pw=ctx.n(150, 4000), n_box=ctx.n(5, 80), n_dist=ctx.n(70, 2000), n_seg=ctx.n(50, 1500),
+                   n_corr=ctx.n(80, 2500), n_int=ctx.n(8, 120))
+            ctx.batch.flush()
+            finish_ties(ctx, res)
+    finally:
+        _TIES = None
+    import os
+
+    if os.environ.get('C17_DEBUG'):
+        import json
+
+        with open(os.environ['C17_DEBUG'], 'w') as f:
+            json.dump({'divergences': res.divergences, 'violations': res.violations}, f, default=str)
     return res
 
 
@@ -915,6 +1499,42 @@ def replay(ctx, obj):
                 allowed = L**5 * SW**4 / 100 + 1e-9 * L * L + 4e-16 * max(1.0, x**SW, x**-SW) / SW + 1e-12
                 if abs(vals[0] - vals[1]) > allowed:
                     r.violate('Box-Cox jump', case, abs(vals[0] - vals[1]), allowed)
+        elif k == 'dist_error':
+            import biogeme.distributions as D
+            from biogeme.expressions import Variable
+
+            name, params, kinds = case['name'], case['params'], case['param_kinds']
+            try:
+                getattr(D, name)(Variable('x'), *[as_beta_arg(kd, f'dp{i}', pv) for i, (kd, pv) in enumerate(zip(kinds, params))])
+                got = None
+            except Exception as e:  # noqa: BLE001
+                got = core.exc_kind(e)
+            if name == 'uniformpdf':
+                expect = 'ValueError' if params[0] > params[1] else None
+            elif name == 'triangularpdf':
+                expect = None if params[0] < params[2] < params[1] else 'ValueError'
+            else:
+                expect = None if params[1] > 0 else 'ValueError'
+            out['observed'], out['expected'] = got, expect
+            if got != expect:
+                r.violate('argument check', case, got, expect)
+        elif k == 'mixed':
+            class _C:  # the stream of check_mixed re-run on this one case
+                pass
+            from biogeme.expressions import Variable, Numeric, bioDraws, exp
+            from biogeme.loglikelihood import mixedloglikelihood
+            import biogeme.distributions as D
+
+            try:
+                p = D.normalpdf(Variable('x'), case['mu'], case['s']) * exp(Numeric(0) * bioDraws('xi', 'NORMAL'))
+                e = mixedloglikelihood(p)
+                vals = [float(v) for v in np.atleast_1d(e.get_value_c(database=make_db({'x': case['xs']}), number_of_draws=case['draws'], prepare_ids=True))]
+                out['observed'] = vals
+                if [type(e).__name__, type(e.child).__name__, e.child.child is p] != ['log', 'MonteCarlo', True] or any(
+                        abs(v - textbook('loglikreg', [x, case['mu'], case['s']])) > 1e-9 + 1e-12 * abs(v) for x, v in zip(case['xs'], vals)):
+                    r.violate('mixedloglikelihood', case, vals, 'log of the probability')
+            except Exception as ex:  # noqa: BLE001
+                r.violate('mixedloglikelihood raises', case, core.exc_kind(ex), 'values')
         else:
             out.update({'property_fails': False, 'note': 'nothing to replay (no concrete input in this file)'})
             return out
